@@ -260,7 +260,7 @@ func DefaultCode(t TestSpec) string {
 		"prefix": "prefix", "suffix": "suffix", "upper": "contains_upper", "digit": "contains_digit",
 		"special": "contains_special", "eq": "eq", "gt": "gt", "gte": "gte", "lt": "lt", "lte": "lte",
 		"after": "after", "before": "before", "email": "email", "url": "url", "uuid": "uuid",
-		"true": "eq", "false": "eq", "custom": "",
+		"true": "eq", "false": "eq", "custom": "", "match": "match",
 	}[t.T]
 	if t.Not {
 		c = "not_" + c
